@@ -118,5 +118,15 @@ PROPS['C16'] = {
             'ndim <= 2 (bounded-in: ndim); ResizingOperator / _resize_discr not under contract yet',
     'technique': 'contract-based deductive verification: symbolic execution of the real padding code on closure arrays with symbolic extents, delta trick, region case split, z3 / sympy',
 }
+PROPS['C14'] = {
+    'level': 'proof',
+    'text': 'Deductive (per axis, generic strictly increasing coordinate vector of SYMBOLIC length n): the real RectPartition.__init__ builds boundaries bdry(0)=min, '
+            'bdry(n)=max, midpoints inside, strictly increasing, each node in its cell, nodes_on_bdry flags; cell_sizes_vecs = bdry differences (telescoping lemma gives the extent), '
+            'boundary fractions * stride = boundary cell sizes; index(p) returns the containing cell with the tie rule and the fractional position; uniform_partition completes '
+            'every parameter subset x nodes_on_bdry sides consistently; uniform_grid_fromintv places nodes by the affine formula.',
+    'note': 'trusted: pyvc interpreter + closure arrays, light object models of IntervalProd/RectGrid, searchsorted / linspace kernel contracts, z3 with quantified monotonicity. '
+            'Known finding: single-node axes report cell size 0. Not under contract: __getitem__/insert/append/squeeze/byaxis N-d bookkeeping',
+    'technique': 'contract-based deductive verification: symbolic execution of the real partition code on closure arrays of symbolic length, induction lemma for telescoping, z3',
+}
 for _k in PROPS:
     NOT_APPLICABLE.pop(_k, None)
